@@ -18,6 +18,13 @@
   4. Estimation totality: all 256 x 256 single-register extremes over several background values and
      seeded random register states, imported through from_hex_string and estimated, in the dev profile
      (overflow checks ON) and in release; the empty sketch must estimate 0.
+  4b. The estimate is a function of the registers only: after EVERY step of every replayed behaviour, in the
+     accuracy runs and on every imported state, estimate_count() of the live sketch is compared with
+     estimate_count() of a fresh sketch imported from the live sketch's export (catches hidden state such as
+     cached counters that clear / merge / import forget); clear() yields the empty sketch and the sketch then
+     behaves like a new one (behaviours "B1 ; clear all ; B2" composed from the edge cover).
+  4c. Pair sweep for add: every ordered pair of rho values 1..72 (+ large ones) into one bucket of a fresh
+     sketch, over all offsets: the register must be the maximum.
   5. Accuracy: seeded sets of uniformly random elements; the recorded (n, est) pairs are validated by TLC
      against the envelope stated in HllDefs.tla (est = 0 for n = 0, 5|est-n| <= 2n for n >= 100).
 """
@@ -48,11 +55,11 @@ TLC_PAR = 2                    # trace-judge JVMs (one worker each) at a time; t
 SIZES = {
     # edge-cover cfg, behaviours replayed (None = all), traced edge behaviours, law behaviours, walks (n, ops),
     # backgrounds, random states, traced random states, accuracy plan [(n, repetitions)], malformed extra
-    "quick": dict(gen="Gen_Hll_quick.cfg", edges=None, traced=150, laws=120, walks=(16, 50),
+    "quick": dict(gen="Gen_Hll_quick.cfg", edges=None, traced=150, prelude=0.35, pair_bytes=2, laws=120, walks=(16, 50),
                   backgrounds=[0, 1, 5, 20, 63, 64, 200, 255], random_states=5000, traced_states=300,
                   acc=[(0, 4), (1, 4), (100, 10), (1000, 8), (10000, 3)], malformed=700,
                   mc=["MC_Hll.cfg", "MC_Hll2.cfg"]),
-    "thorough": dict(gen="Gen_Hll.cfg", edges=None, traced=1500, laws=600, walks=(150, 80),
+    "thorough": dict(gen="Gen_Hll.cfg", edges=None, traced=1500, prelude=0.25, pair_bytes=4, laws=600, walks=(150, 80),
                      backgrounds=sorted(set(list(range(0, 256, 4)) + [1, 2, 5, 7, 13, 31, 33, 47, 62, 63, 65, 127, 129, 249, 250, 254, 255])),
                      random_states=40000, traced_states=3000,
                      acc=[(0, 8), (1, 8), (2, 8), (10, 8), (100, 40), (200, 20), (500, 20), (640, 20), (1000, 40),
@@ -218,11 +225,22 @@ class Sweep:
         return m
 
 
-def concretise(beh, cid, sw, M, V, traced):
-    """abstract behaviour (list of step records from Hll.tla) -> harness case with expectations"""
+def concretise(beh, cid, sw, M, V, traced, prelude=None, ns_all=2):
+    """abstract behaviour (list of step records from Hll.tla) -> harness case with expectations.
+    With `prelude` (another behaviour of the cover) the case is  prelude ; Clear of every sketch ; beh  -
+    a behaviour of Hll.tla because the state after clearing every sketch is the initial state."""
     rnd = sw.rnd
-    imap, vmap = sw.imap(M), sw.vmap(V)
     ns = max(max(st["s"], st["t"]) for st in beh)
+    pre_ops, pre_expect, pre_abs = [], [], []
+    if prelude is not None:
+        pc = concretise(prelude, cid, sw, M, V, False)
+        ns = max(ns, pc["ns"], ns_all)
+        pre_ops, pre_expect, pre_abs = pc["ops"], pc["x"]["expect"], pc["x"]["abstract"]
+        for s in range(ns):
+            pre_ops.append(dict(op="clear", s=s))
+            pre_expect.append(dict(res="ok", regs=[], est=""))
+            pre_abs.append(["clear", s + 1, 0, 0, 0, ""])
+    imap, vmap = sw.imap(M), sw.vmap(V)
     cur = {s: {} for s in range(ns)}
     ops, expect = [], []
     for st in beh:
@@ -247,13 +265,49 @@ def concretise(beh, cid, sw, M, V, traced):
         elif op == "est":
             ops.append(dict(op="est", s=s))
             e["est"] = st["res"]          # "zero" | "count"
+        elif op == "clear":
+            ops.append(dict(op="clear", s=s))
         else:
             raise C.ToolError("unknown abstract op %r" % op)
         cur[s] = want
         expect.append(e)
-    return dict(k="beh", id=cid, ns=ns, ops=ops,
-                x=dict(src="edge", expect=expect, abstract=[[st["op"], st["s"], st["t"], st["i"], st["v"], st["c"]] for st in beh],
-                       imap=list(imap), vmap=list(vmap), trace=traced))
+    return dict(k="beh", id=cid, ns=ns, ops=pre_ops + ops,
+                x=dict(src="edge", expect=pre_expect + expect,
+                       abstract=pre_abs + [[st["op"], st["s"], st["t"], st["i"], st["v"], st["c"]] for st in beh],
+                       imap=list(imap), vmap=list(vmap), trace=traced, prelude=len(pre_ops)))
+
+
+PAIR_RHOS = list(range(1, 73)) + [73, 80, 81, 96, 127, 128, 129, 200, 248, 249]
+
+
+def pair_case(cid, o, ib, rnd):
+    """every ordered pair of rho values into bucket ib of a fresh sketch at offset o"""
+    rhos = [r for r in PAIR_RHOS if r <= max_rho(o)]
+    if max_rho(o) not in rhos:
+        rhos.append(max_rho(o))
+    return dict(k="pairs", id=cid, off=o, idx=ib, els=[[r, mk_element(ib, r, o, rnd).hex()] for r in rhos], x={})
+
+
+def judge_pairs(case, out):
+    if out.get("k") == "crash":
+        return [("C20:crash:pairs", "the harness died in the pair sweep at offset %d: %s" % (case["off"], out.get("why")))]
+    bad = []
+    rhos = [r for r, _ in case["els"]]
+    for i, row in enumerate(out["obs"]):
+        for j, v in enumerate(row):
+            if v != max(rhos[i], rhos[j]):
+                bad.append(("C20:add_pair:register_not_max",
+                            "fresh sketch, offset %d, bucket byte %d: add(rho %d) then add(rho %d) leaves the register at %d, "
+                            "the specification says max = %d (elements %s, %s)" % (
+                                case["off"], case["idx"], rhos[i], rhos[j], v, max(rhos[i], rhos[j]),
+                                case["els"][i][1], case["els"][j][1])))
+                if len(bad) >= 3:
+                    return bad
+    for i, j, why in out["dirty"]:
+        bad.append(("C20:add_pair:%s" % why.replace(" ", "_"), "fresh sketch, offset %d, bucket %d: add(rho %d) then add(rho %d): %s" % (
+            case["off"], case["idx"], rhos[i], rhos[j], why)))
+        break
+    return bad
 
 
 def rand_element(rnd, o, crafted):
@@ -314,6 +368,15 @@ def law_behaviour(cid, rnd):
             ops.append(dict(op="add", s=0, el=e.hex(), off=oo)); ra = len(ops) - 1
             laws.append(("add_idempotent", ab, ra))
         ops.append(dict(op="est", s=0))
+        # clear: the cleared sketch is the empty sketch (a never-touched one reads the same) and is then as good as new
+        ops.append(dict(op="clear", s=0)); c0 = len(ops) - 1
+        ops.append(dict(op="clear", s=3)); ops.append(dict(op="clear", s=3)); c3 = len(ops) - 1
+        laws.append(("cleared_is_empty", c0, c3))
+        laws.append(("cleared_is_empty:registers", c0, None))
+        ops += adds(0, A2); ra2 = obs(0)
+        laws.append(("cleared_behaves_like_new", a1, ra2))
+        ops.append(dict(op="merge", s=3, t=1)); m3 = len(ops) - 1
+        laws.append(("cleared_behaves_like_new", a1, m3))
     else:
         kind = "assoc"
         Cc = mkset(rnd.choice([0, 3, 50, 400]))
@@ -347,9 +410,11 @@ def walk_behaviour(cid, rnd, nops):
             ops.append(dict(op="add", s=s, el=rand_element(rnd, 0, False).hex(), off=rnd.choice(REJECT_OFFSETS)))
         elif x < 0.80:
             ops.append(dict(op="merge", s=s, t=rnd.randrange(NSK)))
-        elif x < 0.88:
+        elif x < 0.86:
             ops.append(dict(op="rt", s=s))
         elif x < 0.93:
+            ops.append(dict(op="clear", s=s))
+        elif x < 0.96:
             h = "00" * 256
             cls = rnd.choice(["short", "long", "empty", "double", "badhi", "badlo"])
             ops.append(dict(op="import", s=s, hex=Sweep(rnd).malformed(h, cls), cls=cls))
@@ -468,7 +533,29 @@ def judge_beh(case, out):
     if out.get("k") == "crash":
         return [("C20:crash:behaviour", "the harness process died or hung running the behaviour: %s" % out.get("why"))]
     steps = out["steps"]
+    nev = 0
     for n, (op, st) in enumerate(zip(case["ops"], steps)):
+        live, fresh = st["ev"]
+        why = None
+        if live == "panic":
+            if fresh != "panic":
+                why = "estimate_count() of the live sketch panics while the fresh import of its export estimates %s" % fresh
+        elif live != fresh:
+            why = ("estimate_count() of the live sketch = %s, but a fresh sketch imported from its export (same registers) "
+                   "estimates %s" % (live, fresh))
+        if why and nev < 1:
+            nev += 1
+            bad.append(("C20:estimate_depends_on_history:after_%s" % op["op"],
+                        "after step %d (%s on sketch %d; preceding ops %s): %s" % (
+                            n, op["op"], op["s"], [o["op"] for o in case["ops"][max(0, n - 6):n]], why)))
+        if live == "panic" and fresh == "panic" and x["src"] != "edge" and nev < 1:
+            nev += 1
+            mx = max([v for _, v in st["regs"]] + [0])
+            bad.append(("C20:estimate_panic:%s" % reg_class(mx), "estimate_count() panics after step %d (%s)" % (n, op["op"])))
+        if not st.get("norec") and st["hex_ok"] and not st["regs"] and live not in ("0", "panic") and nev < 1:
+            nev += 1
+            bad.append(("C20:empty_estimate_nonzero:after_%s" % op["op"],
+                        "after step %d (%s) sketch %d exports all-zero registers but estimate_count() = %s" % (n, op["op"], op["s"], live)))
         if st.get("norec"):
             if st["res"] != "ok":
                 bad.append(("C20:conformance:%s:%s" % (op["op"], st["res"]),
@@ -502,6 +589,11 @@ def judge_beh(case, out):
                 break
     elif x["src"] == "law":
         for name, a, b in x["laws"]:
+            if b is None:           # the read-out at step a must be all zero
+                if steps[a]["res"] != "ok" or step_regs(steps[a]):
+                    bad.append(("C20:law:%s" % name, "law %s: after step %d (%s) the registers are %s (%s)" % (
+                        name, a, case["ops"][a]["op"], sorted(step_regs(steps[a]).items())[:8], steps[a]["res"])))
+                continue
             ra, rb = step_regs(steps[a]), step_regs(steps[b])
             if steps[a]["res"] != "ok" or steps[b]["res"] != "ok":
                 bad.append(("C20:law:%s:outcome" % name, "steps %d/%d returned %s/%s" % (a, b, steps[a]["res"], steps[b]["res"])))
@@ -532,6 +624,9 @@ def judge_est(case, out):
         bad.append(("C20:import_%s:wellformed_hex" % ("refused" if out["imp"] == "err" else "panic"),
                     "from_hex_string of a well-formed 512-digit string (%s) -> %s (%s)" % (dist, out["imp"], out["msg"])))
         return bad
+    if not out.get("same", True):
+        bad.append(("C20:estimate_depends_on_history:after_import",
+                    "an imported %s state and the fresh import of its own export estimate differently" % dist))
     if not out["rt_ok"]:
         bad.append(("C20:hex_identity:%s" % (dist or "state"), "export after import differs from the imported registers (%s state)" % dist))
     if out["res"] != "ok":
@@ -554,13 +649,23 @@ def row_failure_case(row, cid):
 
 def row_bad(row):
     imperr = row["imperr"] if max(row["v"], row["bg"]) <= MAX_ADD_RHO else 0
-    return row["panic"] + imperr + row["rt_bad"] + row["sat"]
+    return row["panic"] + imperr + row["rt_bad"] + row["sat"] + row.get("ediff", 0)
 
 
 # ---- TLC trace judge ------------------------------------------------------------------------------
 
-def tline(k, s=1, t=1, el=None, off=0, res="ok", regs=None, n=0, est=0, cls=""):
-    return dict(k=k, s=s, t=t, el=el or [], off=off, res=res, regs=regs or [], n=n, est=est, cls=cls)
+def tline(k, s=1, t=1, el=None, off=0, res="ok", regs=None, n=0, est=0, cls="", ev=None):
+    d = dict(k=k, s=s, t=t, el=el or [], off=off, res=res, regs=regs or [], n=n, est=est, cls=cls, estf=0, eo="")
+    if ev is not None:
+        live, fresh = ev
+        d["eo"] = "%s/%s" % ("ok" if live.isdigit() else live, "ok" if fresh.isdigit() else fresh)
+        if k != "acc" and live.isdigit():
+            d["est"] = min(int(live), EST_CLAMP)
+        if fresh.isdigit():
+            d["estf"] = min(int(fresh), EST_CLAMP)
+        if live.isdigit() and fresh.isdigit() and live != fresh and d["estf"] == min(int(live), EST_CLAMP):
+            d["estf"] = d["estf"] - 1          # both beyond the clamp but different: keep them different
+    return d
 
 
 def full(st):
@@ -586,15 +691,19 @@ def trace_of_beh(case, out):
     for op, st in zip(case["ops"], out["steps"]):
         s = op["s"] + 1
         res = st["res"]
+        ev = st.get("ev")
         if op["op"] == "add":
             lines.append(tline("add" if op["off"] <= 23 else "addrej", s=s, el=list(bytes.fromhex(op["el"])),
-                               off=min(op["off"], OFF_CLAMP), res=res, regs=full(st)))
+                               off=min(op["off"], OFF_CLAMP), res=res, regs=full(st), ev=ev))
         elif op["op"] == "merge":
-            lines.append(tline("merge", s=s, t=op["t"] + 1, res=res, regs=full(st)))
+            lines.append(tline("merge", s=s, t=op["t"] + 1, res=res, regs=full(st), ev=ev))
         elif op["op"] == "rt":
-            lines.append(tline("rt", s=s, res=res, regs=full(st)))
+            lines.append(tline("rt", s=s, res=res, regs=full(st), ev=ev))
+        elif op["op"] == "clear":
+            lines.append(tline("clear", s=s, res=res, regs=full(st), ev=ev))
         elif op["op"] == "import":
-            lines.append(tline("import" if wellformed(op["hex"]) else "impbad", s=s, res=res, regs=full(st)))
+            wf = wellformed(op["hex"])
+            lines.append(tline("import" if wf else "impbad", s=s, res=res, regs=full(st), ev=None if wf else ev))
         elif op["op"] == "est":
             e, cls = est_fields(st["est"]) if res == "ok" else (0, "")
             lines.append(tline("est", s=s, res=res, est=e, cls=cls))
@@ -663,13 +772,18 @@ def describe(case, out, clauses):
     if case["k"] == "acc":
         return ("Trace_Hll.tla rejects %s: %d distinct uniformly random 32-byte elements (harness seed %d, offset %d, each added "
                 "%d time(s)) are estimated as %s; the envelope is est = 0 for n = 0 and |est - n| <= 0.4 n for n >= 100" % (
-                    sorted(clauses), case["n"], case["seed"], case["off"], case["reps"], out.get("est") or out.get("res")))
+                    sorted(clauses), case["n"], case["seed"], case["off"], case["reps"], out.get("est") or out.get("res"))
+                + "; estimate of (live sketch, fresh import of its export) = %s" % (out.get("ev"),))
     return "Trace_Hll.tla rejects the recorded execution: clauses %s" % sorted(clauses)
 
 
 def key_for_clauses(case, out, clauses):
     """violation key (failing input class) for clauses of Trace_Hll.tla rejected on a case"""
     k = case["k"]
+    if "EstimateOfRegistersOnly" in clauses:
+        return "C20:estimate_depends_on_history:%s" % ("random_elements" if k == "acc" else "trace")
+    if "ClearedIsEmpty" in clauses:
+        return "C20:conformance:clear:registers"
     if k == "acc":
         if "Envelope" in clauses:
             return "C20:envelope:n=%d" % case["n"]
@@ -741,8 +855,15 @@ def run(prop, tier, seed, replay=None):
         sw = Sweep(rnd)
         traced_ids = set(rnd.sample(range(len(abstract)), min(Z["traced"], len(abstract))))
         t0 = time.time()
-        cases = [concretise(b, i, sw, consts["M"], consts["MaxV"], i in traced_ids) for i, b in enumerate(abstract)]
+        cases = [concretise(b, i, sw, consts["M"], consts["MaxV"], i in traced_ids,
+                            prelude=rnd.choice(abstract) if rnd.random() < Z["prelude"] else None, ns_all=consts["NS"])
+                 for i, b in enumerate(abstract)]
         nid = len(cases)
+        pair_cases = []
+        for o in range(24):
+            for ib in ([0, 255][o % 2:][:1] + [rnd.randrange(256) for _ in range(Z["pair_bytes"] - 1)]):
+                pair_cases.append(pair_case(nid, o, ib, rnd))
+                nid += 1
         law_cases = [law_behaviour(nid + i, rnd) for i in range(Z["laws"])]
         nid += len(law_cases)
         walk_cases = [walk_behaviour(nid + i, rnd, Z["walks"][1]) for i in range(Z["walks"][0])]
@@ -792,6 +913,8 @@ def run(prop, tier, seed, replay=None):
         outs["dev"].update(run_cases(bins["dev"], beh_cases + mal_cases, wd, "beh_dev"))
         outs["dev"].update(run_cases(bins["dev"], est_cases + acc_cases, wd, "est_dev"))
         outs["dev"].update(run_cases(bins["dev"], ext_cases, wd, "ext_dev"))
+        outs["dev"].update(run_cases(bins["dev"], pair_cases, wd, "pairs_dev"))
+        outs["release"].update(run_cases(bins["release"], pair_cases, wd, "pairs_rel"))
         rel_beh = (law_cases + walk_cases + cases) if tier == "thorough" else (law_cases + walk_cases)
         outs["release"].update(run_cases(bins["release"], rel_beh, wd, "beh_rel"))
         outs["release"].update(run_cases(bins["release"], est_cases + acc_cases, wd, "est_rel"))
@@ -799,22 +922,30 @@ def run(prop, tier, seed, replay=None):
         C.log("[C20] harness runs (dev + release) in %.1fs" % (time.time() - t0))
 
         # ---- verdict ----
-        stats = dict(beh=0, steps=0, est_states=0, extreme_states=0, acc=0, malformed=0)
+        stats = dict(beh=0, steps=0, est_states=0, extreme_states=0, acc=0, malformed=0, pairs=0, clears=0, reuse=0)
         nontrivial = set()
         acc_pairs = []
         groups = {"dev": [], "release": []}
         tstates = 0
         for profile in ("dev", "release"):
-            for case in ext_cases + est_cases + acc_cases + mal_cases + law_cases + walk_cases + cases:
+            for case in ext_cases + est_cases + acc_cases + pair_cases + mal_cases + cases + law_cases + walk_cases:
                 cid = case["id"]
                 if cid not in outs[profile]:
                     continue
                 rs = outs[profile][cid]
                 out = rs[0]
                 k = case["k"]
-                if k == "beh":
+                if k == "pairs":
+                    if out.get("k") != "crash":
+                        stats["pairs"] += sum(len(r) for r in out["obs"])
+                        nontrivial.add(("pairs", case["off"], case["idx"]))
+                    for key, what in judge_pairs(case, out):
+                        col.add(key, what, case, out, profile)
+                elif k == "beh":
                     stats["beh"] += 1
                     stats["steps"] += len(case["ops"])
+                    stats["clears"] += sum(1 for o in case["ops"] if o["op"] == "clear")
+                    stats["reuse"] += 1 if case["x"].get("prelude") else 0
                     if case["x"].get("abstract") and case["x"]["abstract"][-1][0] == "impbad" and case["ns"] == 1:
                         stats["malformed"] += 1
                     for key, what in judge_beh(case, out):
@@ -853,6 +984,8 @@ def run(prop, tier, seed, replay=None):
                                 key = "C20:import_refused:wellformed_hex"
                             elif row["rt_bad"]:
                                 key = "C20:hex_identity:extreme"
+                            elif row.get("ediff"):
+                                key = "C20:estimate_depends_on_history:after_import"
                             else:
                                 key = "C20:estimate_not_finite"
                             col.add(key, "single-register extreme: register %d = %d, all others %d: %s (%d of the 256 positions fail)" % (
@@ -869,9 +1002,13 @@ def run(prop, tier, seed, replay=None):
                             case["off"], out["res"], out["msg"]), case, out, profile)
                         continue
                     e = est_fields(out["est"])[0] if out["res"] == "ok" else 0
-                    groups[profile].append((case, [tline("acc", n=case["n"], est=e, res="ok" if out["res"] == "ok" else "panic")]))
+                    groups[profile].append((case, [tline("acc", n=case["n"], est=e, res="ok" if out["res"] == "ok" else "panic", ev=out.get("ev"))]))
                     if out["res"] == "ok":
                         acc_pairs.append((profile, case["n"], int(out["est"])))
+                    if out.get("ev") and out["ev"][0] != out["ev"][1]:
+                        col.add("C20:estimate_depends_on_history:random_elements",
+                                "a sketch of %d random elements estimates %s, the fresh import of its export estimates %s" % (
+                                    case["n"], out["ev"][0], out["ev"][1]), case, out, profile)
                     if case["n"] >= 100:
                         nontrivial.add(("acc", case["seed"], case["n"]))
 
@@ -924,13 +1061,16 @@ def run(prop, tier, seed, replay=None):
         states=sum(r["states"] for r in mc.values()), transitions=sum(r["transitions"] for r in mc.values()),
         traces_validated_against_impl=stats["beh"],
         samples=samples,
-        evaluations=stats["beh"] + stats["est_states"] + stats["extreme_states"] + stats["acc"],
+        evaluations=stats["beh"] + stats["est_states"] + stats["extreme_states"] + stats["acc"] + stats["pairs"],
+        add_pairs_swept=stats["pairs"], pair_rhos=PAIR_RHOS, clear_steps=stats["clears"], reuse_after_clear_behaviours=stats["reuse"],
+        estimate_vs_fresh_import_compared_after_steps=stats["steps"],
         distinct_nontrivial=len(nontrivial),
         rule="cases = behaviours replayed into the real Hll8 (edge cover of Hll.tla concretised + full-size law behaviours + "
              "walks + import/malformed pairs), imported register states estimated (random + every single-register extreme "
              "per background) and accuracy sets, over the dev and release profiles; distinct non-trivial = distinct concrete "
              "behaviours that left a non-zero register, distinct non-empty imported states, distinct (background, value) "
-             "extremes rows, distinct accuracy sets with n >= 100",
+             "extremes rows, distinct accuracy sets with n >= 100, distinct (offset, bucket) pair sweeps; after every step of "
+             "every behaviour the estimate of the live sketch is compared with that of a fresh import of its export",
         model={cfg: dict(states=r["states"], transitions=r["transitions"], wall_s=round(r["wall"], 1)) for cfg, r in mc.items()},
         edge_cover=dict(cfg=Z["gen"], behaviours_in_cover=total_edges, replayed=len(cases), constants=consts),
         steps_replayed=stats["steps"], law_behaviours=len(law_cases), walks=len(walk_cases),
@@ -973,6 +1113,8 @@ def run_replay(prop, path, bins, wd, V):
             bad = judge_beh(case, out)
             if out.get("k") != "crash" and case["x"].get("src") in ("walk", "edge") and all(o.get("rec", True) for o in case["ops"]):
                 groups.append((case, trace_of_beh(case, out)))
+        elif case["k"] == "pairs":
+            bad = judge_pairs(case, out)
         elif case["k"] == "est":
             bad = judge_est(case, out)
             if out.get("k") != "crash":
@@ -982,7 +1124,9 @@ def run_replay(prop, path, bins, wd, V):
                 bad.append(("C20:conformance:add:%s" % out["res"], out["msg"]))
             else:
                 e = est_fields(out["est"])[0] if out["res"] == "ok" else 0
-                groups.append((case, [tline("acc", n=case["n"], est=e, res="ok" if out["res"] == "ok" else "panic")]))
+                groups.append((case, [tline("acc", n=case["n"], est=e, res="ok" if out["res"] == "ok" else "panic", ev=out.get("ev"))]))
+                if out.get("ev") and out["ev"][0] != out["ev"][1]:
+                    bad.append(("C20:estimate_depends_on_history:random_elements", "live %s vs fresh import %s" % tuple(out["ev"])))
                 print("  [%s] n = %d, estimate = %s" % (profile, case["n"], out["est"]))
         badg, n = tlc_judge(groups, wd, "replay_" + profile)
         seen += n
